@@ -337,6 +337,16 @@ package config
 //@ func RangeQuerySettings.validate [C18]
 //@   ensures result == nil ==> rqValid(s)
 
+// C18 (for / alerts / cost): the lint-time readers (ForSettings.resolve, the alerts and cost builders in parseRule)
+// call parseDuration on these strings with the error dropped; an accepted block only carries durations that parse,
+// and the numeric limits that are compared against server answers are never negative.
+//@ func ForSettings.validate [C18]
+//@   ensures result == nil ==> (fs.Min != "" ==> durParses(fs.Min)) && (fs.Max != "" ==> durParses(fs.Max)) && (fs.Min != "" || fs.Max != "")
+//@ func AlertsSettings.validate [C18]
+//@   ensures result == nil ==> (as.Range != "" ==> durParses(as.Range)) && (as.Step != "" ==> durParses(as.Step)) && (as.Resolve != "" ==> durParses(as.Resolve)) && as.MinCount >= 0
+//@ func CostSettings.validate [C18]
+//@   ensures result == nil ==> (cs.MaxEvaluationDuration != "" ==> durParses(cs.MaxEvaluationDuration)) && cs.MaxSeries >= 0 && cs.MaxTotalSamples >= 0 && cs.MaxPeakSamples >= 0
+
 // C18 (discovery): the uri of a prometheusQuery discovery block is handed to promapi.NewPrometheus, whose requests
 // parse it with the error dropped (Prometheus.doRequest): it must parse when the configuration is loaded.
 //@ func PrometheusQuery.validate [C18]
